@@ -116,6 +116,15 @@ def eval_pred(p, rel):
     rows = Counter({k + (v,): 1 for k, v in groups.items()})
   if sum(rows.values()) > ROW_CAP:
     raise OverflowError('reference relation %s has more than %d rows' % (p['name'], ROW_CAP))
+  if p.get('limit'):
+    # @OrderBy over all columns + @Limit: the first n rows of the bag in that (total) order.
+    # Ascending = numbers by value, strings by code point; descending = the reverse.
+    flat = []
+    for row, m in rows.items():
+      flat.extend([row] * m)
+    for c, desc in reversed(p['limit']['order']):
+      flat.sort(key=lambda row: row[c], reverse=bool(desc))      # stable: last key first
+    rows = Counter(flat[:p['limit']['n']])
   return rows
 
 
